@@ -27,15 +27,16 @@
 #define T0 1700000000ULL
 
 /* =================================================================================================== part (a) */
-enum { O_VALID = 0, O_STATUS, O_ERRPDU, O_TIMEOUT, O_CONNFAIL, O_CACHEFULL, O_N };
-static const char OCH[O_N + 1] = "VSPTCF";
+enum { O_VALID = 0, O_STATUS, O_ERRPDU, O_VALID_CLOSE, O_TIMEOUT, O_CONNFAIL, O_CACHEFULL, O_N };   /* O_VALID_CLOSE: a valid reply, and the endpoint closes the connection right after it */
+#define O_ANSWERS(o) ((o) <= O_VALID_CLOSE)
+static const char OCH[O_N + 1] = "VSPXTCF";
 enum { EV_ADD = 0, EV_RUN, EV_CLOCK, EV_ANS0, EV_ANS1, EV_ANS2, EV_FILL, EV_N };
 static const char EVCH[EV_N + 1] = "AR+012F";
 #define EV_LEGEND "A=add user request, R=run, +=clock beyond all timeouts, 0/1/2=endpoint i answers its oldest unanswered request with its assigned outcome, F=add filler request"
 
 typedef struct {
 	int forwarded;                /* model: the endpoint had room, so the request was cloned to it */
-	int sent; time_t sent_time; uint64_t id;
+	int sent; time_t sent_time; uint64_t id; int sent_conn_seq;
 	int answered, reply_kind; size_t end_off; int conn_seq;
 	int consumed, arrival_round, expired_at_arrival;
 	int expired;                  /* a send / receive timeout was possible at some run (sticky) */
@@ -115,7 +116,7 @@ static void a_after_send(sn_conn *c) {
 				if (r.hash_len == hl && memcmp(r.hash, h, hl) == 0 && !W.req[k].s[e].sent) {
 					hit = 1;
 					if (!W.req[k].s[e].forwarded) HF("forwarded-to-full-endpoint", "request #%d reached endpoint %d although its cache (size %d) was occupied at submission", k, e, W.cache[e]);
-					W.req[k].s[e].sent = 1; W.req[k].s[e].id = r.req_id; W.req[k].s[e].sent_time = sn_now;
+					W.req[k].s[e].sent = 1; W.req[k].s[e].id = r.req_id; W.req[k].s[e].sent_time = sn_now; W.req[k].s[e].sent_conn_seq = c->seq;
 					if ((r.has_level ? r.level : 0) != W.req[k].level) HF("request-level-changed", "the copy of request #%d sent to endpoint %d carries level %llu, the caller gave %llu", k, e, (unsigned long long)(r.has_level ? r.level : 0), (unsigned long long)W.req[k].level);
 					break;
 				}
@@ -331,17 +332,17 @@ static int a_apply(int ev) {
 			sn_conn *c;
 			vbuf b, body, payload;
 			rp_env env;
-			if (e >= W.nE || W.out[e] > O_ERRPDU) return 0;
+			if (e >= W.nE || !O_ANSWERS(W.out[e])) return 0;
 			c = ep_conn(e);
 			if (!c) return 0;
-			for (k = 0; k < W.nreq; k++) if (W.req[k].s[e].sent && !W.req[k].s[e].answered) { kk = k; break; }
+			for (k = 0; k < W.nreq; k++) if (W.req[k].s[e].sent && !W.req[k].s[e].answered && W.req[k].s[e].sent_conn_seq == c->seq) { kk = k; break; }   /* a server answers on the connection the request came in on */
 			if (kk < 0) return 0;
 			memset(&env, 0, sizeof env);
 			env.version = 2; env.kind = RP_AGGR; env.login = LOGIN; env.mac_alg = RH_SHA256; env.key = KEY; env.keylen = strlen(KEY);
 			vb_init(&b); vb_init(&body); vb_init(&payload);
 			if (W.out[e] == O_ERRPDU) rp_error_payload(&payload, 2, RP_AGGR, 0x0300, "upstream error");
 			else {
-				if (W.out[e] == O_VALID) {
+				if (W.out[e] == O_VALID || W.out[e] == O_VALID_CLOSE) {
 					rsig sig;
 					unsigned char hh[RH_MAX_IMPRINT];
 					size_t hl = ref_fake_imprint(RH_SHA256, W.req[kk].seed, hh);
@@ -354,7 +355,13 @@ static int a_apply(int ev) {
 			}
 			rp_wrap_response(&b, &env, payload.p, payload.n);
 			sn_server_write(c, b.p, b.n);
-			W.req[kk].s[e].answered = 1; W.req[kk].s[e].reply_kind = W.out[e]; W.req[kk].s[e].end_off = c->in.n; W.req[kk].s[e].conn_seq = c->seq;
+			W.req[kk].s[e].answered = 1; W.req[kk].s[e].reply_kind = W.out[e] == O_VALID_CLOSE ? O_VALID : W.out[e]; W.req[kk].s[e].end_off = c->in.n; W.req[kk].s[e].conn_seq = c->seq;
+			if (W.out[e] == O_VALID_CLOSE) {
+				/* the reply and the end of the connection reach the client together; whatever else was waiting on that connection is lost */
+				int q;
+				sn_server_close(c);
+				for (q = 0; q < W.nreq; q++) if (q != kk && W.req[q].s[e].sent && !W.req[q].s[e].answered && W.req[q].s[e].sent_conn_seq == c->seq) W.req[q].s[e].errhit = 1;
+			}
 			vb_free(&b); vb_free(&body); vb_free(&payload);
 			return 1;
 		}
@@ -512,7 +519,7 @@ static void a_case(int nE, int nR, const int *out, long max_states, int max_len,
 	if (any_full) {
 		/* fixed prefix: a filler request occupies the one-slot caches; the answering endpoints answer it */
 		root.ev[root.n++] = EV_FILL; root.ev[root.n++] = EV_RUN;
-		for (e = 0; e < nE; e++) if (out[e] <= O_ERRPDU) root.ev[root.n++] = (unsigned char)(EV_ANS0 + e);
+		for (e = 0; e < nE; e++) if (O_ANSWERS(out[e])) root.ev[root.n++] = (unsigned char)(EV_ANS0 + e);
 		root.ev[root.n++] = EV_RUN; root.ev[root.n++] = EV_RUN; root.ev[root.n++] = EV_RUN;
 	}
 	queue = malloc(qcap * sizeof *queue);
@@ -569,7 +576,7 @@ static void part_a(void) {
 			nm[nE] = 0;
 			/* number of clock jumps per history (timeouts are in addition exercised by the drain from every state) */
 			int clk = 9, silent = 0;
-			for (e = 0; e < nE; e++) silent += out[e] > O_ERRPDU;
+			for (e = 0; e < nE; e++) silent += !O_ANSWERS(out[e]);
 			if ((nE == 2 && nR == 2) || (nE == 3 && nR == 1)) clk = VF_THOROUGH ? 9 : 1;
 			if (nE == 3 && nR == 2) { if (!VF_THOROUGH) continue; clk = silent ? 1 : 0; }
 			max_len = 40;            /* history length bound after the fixed prefix (never reached: the reachable state space is finite) */
